@@ -67,7 +67,7 @@ def generate(ctx, thorough):
     if len(recs) < 1500:
         raise D.Inconclusive("generator emitted only %d cases" % len(recs))
     if thorough:
-        sim = D.run_tlc(ctx, "C11_MC", "C11_sim.cfg", simulate="num=2500", depth=12, tag="sim")
+        sim = D.run_tlc(ctx, "C11_MC", "C11_sim.cfg", simulate="num=600", depth=12, tag="sim")
         if sim.violated:
             raise D.Inconclusive("simulation violates the specification's own laws: %s" % sim.violated)
         if len(sim.records) < 2000:
